@@ -467,6 +467,17 @@ func c12Families(thorough bool) []c12Family {
 		}
 		fams = append(fams, f)
 	}
+	// task ids that contain SQL pattern characters (the create API takes any task id): "t_1" read as a LIKE pattern
+	// matches "tx1", "t%" matches every id; the prefix relation of "t%" / "t%2" on top
+	{
+		f := c12Family{Name: "pattern-ids", Roots: []string{"r"}, Tasks: []string{"t_1", "tx1", "t%", "t%2"}}
+		for _, t := range f.Tasks {
+			f.Ops = append(f.Ops, c12Op{Kind: "putTask", Root: "r", Task: t}, c12Op{Kind: "delTask", Root: "r", Task: t}, c12Op{Kind: "setState", Root: "r", Task: t},
+				c12Op{Kind: "updPos", Root: "r", Task: t, Coll: 1, Chan: "c"}, c12Op{Kind: "markDropped", Root: "r", Task: t, Coll: 1}, c12Op{Kind: "delPos", Root: "r", Task: t, Coll: 1},
+				c12Op{Kind: "putMsg", Root: "r", Task: t}, c12Op{Kind: "rmMsg", Root: "r", Task: t})
+		}
+		fams = append(fams, f)
+	}
 	// several tenants (root paths) on one backend, ids equal across tenants
 	{
 		f := c12Family{Name: "roots", Roots: []string{"r", "r2", "r_", "rX"}, Tasks: []string{"t1"}}
@@ -525,7 +536,7 @@ func TestVerifC12Isolation(t *testing.T) {
 		depth = 5
 	}
 	res.Bounds["depth"] = depth
-	res.Rule = "BFS over operation histories through the real meta_op.go functions (put task, guarded state update, update checkpoint of one channel, mark collection dropped, delete task, put / remove task message) on the real etcd stores over fakeetcd and the real MySQL stores over fakesql; families: prefix-sharing ids (tasks t1/t10, collections 1/10/-10, channels c/c2) under one root; four tenants (roots r, r2, r_, rX) with equal ids on one backend; task deletion with a failure at each backend round trip; after every operation the full backend dump is diffed against the dump before: only records of the addressed (root, task[, collection]) may change, inside a checkpoint record only the addressed channel, dropped entries never, deletion all-or-nothing; reads (get, list, positions, task-message reload) return only records written under the same root and task; states deduplicated on the dump with stamps removed; non-trivial = histories with a fault or touching >= 2 records"
+	res.Rule = "BFS over operation histories through the real meta_op.go functions (put task, guarded state update, update checkpoint of one channel, mark collection dropped, delete task, put / remove task message) on the real etcd stores over fakeetcd and the real MySQL stores over fakesql; families: prefix-sharing ids (tasks t1/t10, collections 1/10/-10, channels c/c2) under one root; task ids with SQL pattern characters (t_1 / tx1 / t% / t%2); four tenants (roots r, r2, r_, rX) with equal ids on one backend; task deletion with a failure at each backend round trip; after every operation the full backend dump is diffed against the dump before: only records of the addressed (root, task[, collection]) may change, inside a checkpoint record only the addressed channel, dropped entries never, deletion all-or-nothing; reads (get, list, positions, task-message reload) return only records written under the same root and task; states deduplicated on the dump with stamps removed; non-trivial = histories with a fault or touching >= 2 records"
 	deadline := time.Now().Add(ev.Budget(150 * time.Second))
 	idx := 0
 	for _, backend := range []string{"etcd", "mysql"} {
